@@ -1,8 +1,8 @@
 SPECIFICATION Spec
 CONSTANTS
-  Depth = 3
+  Depth = 2
   Contexts = {1, 2, 3, 4, 5, 6, 7, 8, 9}
-  DeepContexts = {1}
+  DeepContexts = {1, 2, 3, 7, 8, 9}
   Export = TRUE
 INVARIANT Inv
 CHECK_DEADLOCK FALSE
